@@ -125,6 +125,20 @@ func TestExpiryBounds(t *testing.T) {
 						ctx := context.Background()
 						if ctxTTL != 0 {
 							ctx = cache.WithTTL(ctx, ctxTTL, false)
+
+							// ways of arriving at the same effective context TTL: an update with 0 changes nothing, an update
+							// with the same value neither, and a cell that was set to a larger value is lowered by an update
+							switch s % 4 {
+							case 1:
+								_ = cache.WithTTL(ctx, 0, true)
+							case 2:
+								_ = cache.WithTTL(ctx, ctxTTL, true)
+							case 3:
+								if ctxTTL > 0 && ctxTTL < 100*365*24*time.Hour {
+									ctx = cache.WithTTL(context.Background(), ctxTTL+time.Hour, false)
+									_ = cache.WithTTL(ctx, ctxTTL, true)
+								}
+							}
 						}
 
 						if s%2 == 1 {
